@@ -76,3 +76,28 @@ From AM Require Import Model.Framing Model.IngestIR Gen.IngestProg Proofs.Ingest
 Theorem C07_ingest_from_source : forall cs d cb, run_ingest gen_Ingest cs d cb = Some (ingest cs d cb).
 Proof. exact ingest_from_source. Qed.
 Print Assumptions C07_ingest_from_source.
+
+(* ---------- the audit half: what parseAuditLogs hands to the parser, from the source ----------
+   Gen/AuditProg.v is REGENERATED on every run from processors/auditd/auditd.go; Model/AuditIR.v interprets it
+   with auparse.ParseLogLine as the oracle [parse] and  line == ""  as [is_empty].  For EVERY line l that is
+   not empty — whatever its length, whatever bytes it holds — the parser goroutine asks the oracle about l
+   ITSELF (no trimming, no length filter, no other test stands between the receive and ParseLogLine) and does
+   what the verdict says: the message is pushed to the reassembler, or the loop ends with the error that shows
+   that line.  (An edit that filters, trims or rewrites the line makes this theorem, or the generated file, fail.) *)
+From AM Require Model.AuditProc Model.AuditIR Gen.AuditProg Proofs.AuditIRTie.
+Theorem C07_audit_line_unchanged_from_source :
+  forall (line msg event cerr login AS : Type) (is_empty : line -> bool) (parse : line -> option msg)
+         (mseq : msg -> BinNums.N) (mtype : msg -> nat) (coalesce : list msg -> option event) (old : event -> bool)
+         (audit : AS -> event -> AS * option cerr) (rlogin : AS -> login -> AS * option cerr)
+         (csess clogins : AS -> AuditIR.tmv -> AS) (dur : BinNums.Z -> nat)
+         (mx tmo now : nat) (l : line) (p : AuditProc.pst line msg event cerr AS),
+  is_empty l = false ->
+  AuditIR.parser_step_gen line msg event cerr login AS is_empty parse mseq mtype coalesce old audit rlogin csess clogins dur
+                          AuditProg.gen_audit (mx, tmo) now l p =
+  Some (match parse l with
+        | Some m => AuditProc.reass line msg event cerr AS mseq mtype coalesce old audit mx tmo
+                      (AuditProc.consume line msg event cerr AS l p) (AuditProc.RPush now m)
+        | None => AuditProc.set_perr line msg event cerr AS l (AuditProc.consume line msg event cerr AS l p)
+        end).
+Proof. exact AuditIRTie.parse_gets_line_unchanged. Qed.
+Print Assumptions C07_audit_line_unchanged_from_source.
